@@ -8,7 +8,7 @@
 #include <xenium/kirsch_kfifo_queue.hpp>
 
 using namespace xsim;
-namespace {
+namespace hx_kfifo {
 enum { OP_PUSH = 1, OP_TRY_POP = 2, OP_POP = 3, OP_DRAIN = 4 };
 int g_vals[256];
 
